@@ -14,16 +14,16 @@ structure Live (s : St) (p : ObjId) : Prop where
 theorem live_of_rel {b : Option Addr} {s s' : St} {p : ObjId} (hr : Rel b s s') (hA' : InvA s') (h : Live s p) : Live s' p :=
   ⟨hA', uniq_of_rel hr h.u, by rw [hr.nobj]; exact h.lt, by rw [hr.lost]; exact h.nl⟩
 
-theorem invL_putChars (c : Cfg) (h12 : c.fix12 = true) (s : St) (p : ObjId) (x : Cid) (ev : Option Bool) (val : Option Val)
+theorem invL_putChars (c : Cfg) (h12 : c.fix12 = true) (hcb : ∀ x, c.cb x = Callback.none) (s : St) (p : ObjId) (x : Cid) (ev : Option Bool) (val : Option Val)
     (h : InvL c s) (hl : Live s p) : InvL c (putChars c s p x ev val) := by
   have h1 := invL_putSub c s p x ev h hl.a hl.u hl.lt hl.nl
   have l1 := live_of_rel (rel_putSub c s p x ev) (invA_putSub c s p x ev hl.a) hl
   simp only [putChars]
   split
   · exact h1
-  · exact invL_putVal c h12 _ p x _ h1 l1.a l1.u l1.lt l1.nl
+  · exact invL_putVal c h12 (hcb x) _ p _ h1 l1.a l1.u l1.lt l1.nl
 
-theorem invL_onPut (c : Cfg) (h12 : c.fix12 = true) (h13 : c.fix13 = true) (s : St) (p : ObjId) (x ev val cl)
+theorem invL_onPut (c : Cfg) (h12 : c.fix12 = true) (h13 : c.fix13 = true) (hcb : ∀ x, c.cb x = Callback.none) (s : St) (p : ObjId) (x ev val cl)
     (h : InvL c s) (hl : Live s p) : InvL c (onPut c s p x ev val cl).1 := by
   simp only [onPut]
   have hr : InvL c (if (s.obj p).verified then respond (putChars c s p x ev val) p 204 Body.none
@@ -31,7 +31,7 @@ theorem invL_onPut (c : Cfg) (h12 : c.fix12 = true) (h13 : c.fix13 = true) (s : 
       Live (if (s.obj p).verified then respond (putChars c s p x ev val) p 204 Body.none
            else respond s p 401 Body.none).1 p := by
     split
-    · refine ⟨invL_respond c _ p _ _ (invL_putChars c h12 s p x ev val h hl), ?_⟩
+    · refine ⟨invL_respond c _ p _ _ (invL_putChars c h12 hcb s p x ev val h hl), ?_⟩
       exact live_of_rel (Rel.trans (rel_putChars c s p x ev val) (Rel.weaken (rel_respond _ p 204 Body.none)))
         (invA_respond _ p 204 Body.none (invA_putChars c s p x ev val hl.a)) hl
     · exact ⟨invL_respond c _ p _ _ h, live_of_rel (rel_respond s p 401 Body.none) (invA_respond _ p 401 Body.none hl.a) hl⟩
@@ -43,7 +43,7 @@ theorem invL_setPrepared (c : Cfg) (s : St) (f : Addr → Option (List Pid)) (h 
   intro q x hs
   exact lok_frame c s _ q x (h q x hs) rfl rfl (fun g => g) rfl rfl rfl (fun g => g)
 
-theorem invL_onReq (c : Cfg) (h12 : c.fix12 = true) (h13 : c.fix13 = true) (s : St) (p : ObjId) (r : Req)
+theorem invL_onReq (c : Cfg) (h12 : c.fix12 = true) (h13 : c.fix13 = true) (hcb : ∀ x, c.cb x = Callback.none) (s : St) (p : ObjId) (r : Req)
     (h : InvL c s) (hl : Live s p) : InvL c (onReq c s p r).1 := by
   simp only [onReq]
   split
@@ -51,7 +51,7 @@ theorem invL_onReq (c : Cfg) (h12 : c.fix12 = true) (h13 : c.fix13 = true) (s : 
   · split
     · exact invL_closeP c s p h hl.a hl.u hl.lt hl.nl
     · exact invL_closeP c s p h hl.a hl.u hl.lt hl.nl
-    · exact invL_onPut c h12 h13 s p _ _ _ _ h hl
+    · exact invL_onPut c h12 h13 hcb s p _ _ _ _ h hl
     · split <;> exact invL_respond c _ p _ _ h
     · split
       · exact invL_respond c _ p _ _ (invL_setPrepared c s _ h)
@@ -89,6 +89,26 @@ theorem hf_writeVal (c : Cfg) (s : St) (x : Cid) (v : Val) (sd : Option Addr) : 
   simp only; split
   · exact key
   · exact key
+theorem hf_clientUpdate (c : Cfg) (s : St) (x : Cid) (v : Val) (sd : Option Addr) : (clientUpdate c s x v sd).handoffs = s.handoffs := by
+  simp only [clientUpdate]
+  have h2 : (runCallback c (setVal s x v) x v).handoffs = s.handoffs := by
+    simp only [runCallback]; split
+    · rfl
+    · rw [hf_writeVal]; rfl
+    · rw [hf_writeVal]; rfl
+    · rw [hf_writeVal]; rfl
+  have h3 : (match (runCallback c (setVal s x v) x v).value x with
+    | some u => if (runCallback c (setVal s x v) x v).value x ≠ s.value x then publish c (runCallback c (setVal s x v) x v) x u sd
+                else runCallback c (setVal s x v) x v
+    | none => runCallback c (setVal s x v) x v).handoffs = s.handoffs := by
+    split
+    · split
+      · rw [hf_publish]; exact h2
+      · exact h2
+    · exact h2
+  split
+  · exact h3
+  · exact h3
 theorem hf_discardStale (c : Cfg) (s : St) (a : Addr) (x : Cid) : (discardStale c s a x).handoffs = s.handoffs := by
   simp only [discardStale]; split
   · split
@@ -112,7 +132,7 @@ theorem hf_putChars (c : Cfg) (s : St) (p : ObjId) (x : Cid) (ev : Option Bool) 
   · exact hf_putSub c s p x ev
   · simp only [putVal]
     show (discardStale c _ _ x).handoffs = _
-    rw [hf_discardStale, hf_writeVal, hf_putSub]
+    rw [hf_discardStale, hf_clientUpdate, hf_putSub]
 theorem hf_onReq (c : Cfg) (s : St) (p : ObjId) (r : Req) : (onReq c s p r).1.handoffs = s.handoffs := by
   simp only [onReq]; split
   · rfl
@@ -167,7 +187,7 @@ theorem handoffs_step (c : Cfg) (s : St) (e : Ev) (hw : notWorker e) (h0 : s.han
   | idleSweep => exact h0
   | stop => exact h0
 
-theorem invL_step (c : Cfg) (h12 : c.fix12 = true) (h13 : c.fix13 = true) (s : St) (e : Ev) (h : InvL c s)
+theorem invL_step (c : Cfg) (h12 : c.fix12 = true) (h13 : c.fix13 = true) (hcb : ∀ x, c.cb x = Callback.none) (s : St) (e : Ev) (h : InvL c s)
     (hG : Good s) (hr : reuseCond s e) (hw : notWorker e) (h0 : s.handoffs = []) : InvL c (step c s e).1 := by
   cases e with
   | tick dt =>
@@ -187,7 +207,7 @@ theorem invL_step (c : Cfg) (h12 : c.fix12 = true) (h13 : c.fix13 = true) (s : S
       simp only [onData]
       have hl : Live s p := ⟨hG.a, hG.uniq, hen.1, open_live s hG.a p hen.2⟩
       have ht : Rel none s (touch s p) := rel_updObj s p _ rfl rfl (fun g => g) (Or.inr rfl)
-      exact invL_onReq c h12 h13 _ p r (invL_updObj c s p _ h rfl rfl rfl rfl rfl (Nat.le_refl _))
+      exact invL_onReq c h12 h13 hcb _ p r (invL_updObj c s p _ h rfl rfl rfl rfl rfl (Nat.le_refl _))
         (live_of_rel ht (invA_touch s p hG.a) hl)
     · exact h
   | appSet x v => exact invL_appSet c s x v h hG.a
@@ -217,7 +237,7 @@ theorem invL_step (c : Cfg) (h12 : c.fix12 = true) (h13 : c.fix13 = true) (s : S
   | idleSweep => exact invL_idleSweep c s h hG.a
   | stop => exact invL_stop c s h hG.a
 
-theorem invL_run_from (c : Cfg) (h12 : c.fix12 = true) (h13 : c.fix13 = true) (tr : List Ev) (s : St)
+theorem invL_run_from (c : Cfg) (h12 : c.fix12 = true) (h13 : c.fix13 = true) (hcb : ∀ x, c.cb x = Callback.none) (tr : List Ev) (s : St)
     (h : InvL c s) (hG : Good s) (hr : ReuseOK c s tr) (hw : NoWorker tr) (h0 : s.handoffs = []) :
     InvL c (run c s tr).1 := by
   induction tr generalizing s with
@@ -226,13 +246,13 @@ theorem invL_run_from (c : Cfg) (h12 : c.fix12 = true) (h13 : c.fix13 = true) (t
     rw [reuseOK_cons] at hr
     simp only [run]
     have hwe := hw e (List.mem_cons_self ..)
-    exact ih _ (invL_step c h12 h13 s e h hG hr.1 hwe h0)
+    exact ih _ (invL_step c h12 h13 hcb s e h hG hr.1 hwe h0)
       ⟨invA_step c h13 s e hG.a, cleanInv_step c s e hG.a hG.clean, uniqInv_step c s e hG.uniq hr.1⟩ hr.2
       (fun e' he' => hw e' (List.mem_cons_of_mem _ he')) (handoffs_step c s e hwe h0)
 
-theorem invL_run (c : Cfg) (h12 : c.fix12 = true) (h13 : c.fix13 = true) (tr : List Ev)
+theorem invL_run (c : Cfg) (h12 : c.fix12 = true) (h13 : c.fix13 = true) (hcb : ∀ x, c.cb x = Callback.none) (tr : List Ev)
     (hr : ReuseOK c (init c) tr) (hw : NoWorker tr) : InvL c (run c (init c) tr).1 :=
-  invL_run_from c h12 h13 tr _ (invL_init c) (good_init c) hr hw rfl
+  invL_run_from c h12 h13 hcb tr _ (invL_init c) (good_init c) hr hw rfl
 
 /-! #### draining one connection -/
 
